@@ -258,7 +258,9 @@ def run_query(base, case, q, idmap, variant=None, err_detail=False):
         kw = {}
         if q["lookups"] or not bits & 1:
             kw["lookup_directories"] = args(q["lookups"])
-        if not (no_prints(case) and not q.get("mutations")) or not bits & 2:
+        # (C19 - err_detail - compares the handler calls with the model: there the handler is only left out when there is
+        # nothing to observe; C09 / C10 do not compare them and also run definitions with @print without a handler)
+        if (err_detail and not (no_prints(case) and not q.get("mutations"))) or not bits & 2:
             kw["print_output_handler"] = handler
         au = allow_unregulated(case)
         if au or not bits & 4:
